@@ -9,6 +9,8 @@ import (
 	"fmt"
 	"io"
 	"net/url"
+	"sort"
+	"strings"
 	"sync"
 	"sync/atomic"
 	"time"
@@ -46,6 +48,77 @@ type env struct {
 	mu      sync.Mutex
 	infra   int
 	samples map[string]bool
+	viols   map[string]*pendingViolation
+}
+
+// pendingViolation is the best witness seen so far for one key.  vkit keeps
+// the first witness per key; the check prefers, for the same key, a witness
+// that shows bytes of other traffic over one from a warmed instance over one
+// from a fresh instance, so violations are handed to vkit at the end.
+type pendingViolation struct {
+	witness any
+	what    string
+	prio    int
+	count   int64
+}
+
+func witnessPrio(wit map[string]any) (prio int) {
+	prio = 1
+	if inst, _ := wit["instance"].(string); inst == "warmed" {
+		prio = 2
+	}
+
+	if ps, ok := wit["problems"].([]string); ok {
+		for _, p := range ps {
+			if strings.HasPrefix(p, "stale-bytes") {
+				prio = 3
+			}
+		}
+	}
+
+	if _, ok := wit["other_traffic_bytes_in_response"]; ok {
+		prio = 3
+	}
+
+	return prio
+}
+
+func (e *env) violation(key, what string, wit map[string]any) {
+	prio := witnessPrio(wit)
+
+	e.mu.Lock()
+	defer e.mu.Unlock()
+
+	pv := e.viols[key]
+	if pv == nil {
+		pv = &pendingViolation{}
+		e.viols[key] = pv
+	}
+
+	pv.count++
+	if prio > pv.prio {
+		pv.prio, pv.what, pv.witness = prio, what, wit
+	}
+}
+
+// flushViolations hands the collected violations to vkit.
+func (e *env) flushViolations() {
+	e.mu.Lock()
+	defer e.mu.Unlock()
+
+	keys := make([]string, 0, len(e.viols))
+	for k := range e.viols {
+		keys = append(keys, k)
+	}
+	sort.Strings(keys)
+
+	for _, k := range keys {
+		pv := e.viols[k]
+		e.r.Violation(k, pv.what, pv.witness)
+		e.r.Bucket("refuting_observations:"+k, pv.count)
+	}
+
+	e.viols = map[string]*pendingViolation{}
 }
 
 func (e *env) nextWarm(kind warmKind) (wire []byte) { return e.gen.msg(e.warmN.Add(1), kind) }
@@ -206,12 +279,21 @@ func streamModel(s []byte) (px *pexp) {
 		ex := modelOf(msg)
 		// Once the server is documented to close the stream, later frames
 		// may or may not be served.
-		px.frames = append(px.frames, &frameExp{exp: ex, sent: msg, must: ex.wantsAnswer() && !px.closes})
+		px.frames = append(px.frames, &frameExp{exp: ex, sent: msg, must: ex.wantsAnswer()})
 		if !ex.wantsAnswer() {
 			px.closes = true
 		}
 
 		s = s[2+l:]
+	}
+
+	if px.closes {
+		// Frames are served concurrently (pipelining) and the frame that
+		// cannot be served makes the server close the connection at once, so
+		// the answers to the frames before it may be lost as well.
+		for _, f := range px.frames {
+			f.must = false
+		}
 	}
 
 	return px
